@@ -27,6 +27,10 @@ def run(repo, run, tier):
     # (or an exact zero); a success decided by comparing |g| with the abscissa tolerance reports end points of steps that contain no crossing
     from .c08 import dim_rule
     dim_rule(repo, run, "C07.8", ["brentsrootvec"], floor=6)
+    # the observation points: `events` / `events_dict` are views of the record list of the CURRENT trajectory; a view answered from something stored by an
+    # earlier read (a cache keyed by the number of records, say) survives reset() and reports the previous run's events
+    from .common import readonly
+    readonly(repo, run, "C07.9", DS, ["OdeSystem.events", "OdeSystem.events_dict"], "the event views of the system (events, events_dict)")
 
 
 def _event_loop(m):
